@@ -5,6 +5,7 @@ import (
 	"fmt"
 	"go/scanner"
 	"go/token"
+	"os"
 	"regexp"
 	"strings"
 
@@ -163,7 +164,14 @@ func Run(c *core.Ctx) {
 	c.Rule = "programs = every .templ file, formattestdata section and documentation code block found in the repository at run time + the complete adjacency matrix (22 node kinds^2 x 3 separators x 7 parent contexts, and every kind alone with 3x3 lead/trail whitespace) + attribute/expression/file spelling cells + seeded random compositions (depth<=4, random spellings) + token-level mutants of corpus files and cells; a program counts (evaluations) only if parse+generate+gofmt accept it; non-trivial = the formatter changes the text (fmt(x) != x), distinct by program text"
 	c.Assume("`templ fmt` is modelled in-process as parser.ParseString -> TemplateFile.Write (the stdin path of fmtcmd; imports.Process is the identity when no file path is known), `templ generate` as parser.ParseString -> generator.Generate(WithFileName) -> go/format.Source")
 	c.Assume("'same program' is decided on the generated Go text after gofmt and masking of Line/Col inside templ.Error literals; the Go compiler is not run in this tier")
+	if os.Getenv("VERIF_C08_RENDER_ONLY") != "" { // development switch: only the compile-and-render sample
+		renderSample(c)
+		return
+	}
 	r := tsrc.NewRunner(c, Check, "formatting changes the program")
 	r.Weaker = Weaker
 	r.Run()
+	if !c.Quick() && c.ReplayFile == "" {
+		renderSample(c)
+	}
 }
